@@ -309,7 +309,7 @@ func (c *Cfg) YAML(root string) string {
 			sub.close()
 		}
 		c.scriptBlock(sub, root, "deb.", []string{"rules", "templates", "config"})
-		if c.DebSigKey != "" || c.DebSigType != "" || c.DebSigMethod != "" {
+		if c.DebSigKey != "" || c.DebSigType != "" || c.DebSigMethod != "" || c.DebSigKeyID != "" {
 			sub.open("signature")
 			sub.str("key_file", c.DebSigKey)
 			sub.str("key_id", c.DebSigKeyID)
@@ -334,7 +334,7 @@ func (c *Cfg) YAML(root string) string {
 		sub.str("buildhost", c.RpmBuildHost)
 		sub.list("prefixes", c.RpmPrefixes)
 		c.scriptBlock(sub, root, "rpm.", []string{"pretrans", "posttrans", "verify"})
-		if c.RpmSigKey != "" {
+		if c.RpmSigKey != "" || c.RpmSigKeyID != "" {
 			sub.open("signature")
 			sub.str("key_file", c.RpmSigKey)
 			sub.str("key_id", c.RpmSigKeyID)
